@@ -124,9 +124,9 @@ theorem bitmap_words_roundtrip (le : Bool) (bm : List Nat) (nb : Nat) (t : List 
     have hl : (bm.take (divCeil32 nb)).length = divCeil32 nb := by simp [hlen]; omega
     rw [hl, ← hz, List.take_append_drop]
 
-theorem snsetRead_enc (le : Bool) (s : SNSet) (t : List Nat) (h : s.WF) :
-    snsetRead le (snsetE le s ++ t) = ok (s, t) := by
-  obtain ⟨hb, hnb, hlen, hw, hz⟩ := h
+theorem snsetRead_enc (chk le : Bool) (s : SNSet) (t : List Nat) (h : s.WF) :
+    snsetRead chk le (snsetE le s ++ t) = ok (s, t) := by
+  obtain ⟨hb, hnb, hlen, hw, hz, hov⟩ := h
   obtain ⟨ws, hr, hp⟩ := bitmap_words_roundtrip le s.bitmap s.numBits t hnb hlen hw hz
   simp only [snsetRead, snsetE, List.append_assoc]
   rw [readSN_enc le _ _ hb.1 hb.2]
@@ -134,7 +134,11 @@ theorem snsetRead_enc (le : Bool) (s : SNSet) (t : List Nat) (h : s.WF) :
   rw [readU32_enc le _ _ (by omega)]
   simp only []
   have : ¬ s.numBits > 256 := by omega
-  simp only [this, if_false]
+  have hc : ¬ (chk = true ∧ s.numBits > 0 ∧ s.base + ((s.numBits : Int) - 1) ≥ 9223372036854775808) := by
+    intro ⟨_, hpos, hge⟩
+    have := hov hpos
+    omega
+  simp only [this, hc, if_false]
   rw [hr]
   simp only [hp]
 
